@@ -83,8 +83,54 @@ TVlq ==
      IN /\ (bad = {} \/ PrintT(<<"ITEM", ToJson([cls |-> "vlq", what |-> "the emitted VLQ digits do not decode to the encoded integer", l |-> l, id |-> e.id,
                                                   more |-> [n |-> e.nums[CHOOSE i \in bad : TRUE]]])>>))
         /\ Stat([l |-> l, vlq |-> Len(e.nums)])
+(* "Writer" events: a call sequence generated by TLC from MappingWriterAlgo.tla, replayed into the real SourceWriter.  Judged by   *)
+(* what the property needs, not by the algorithm model: the mappings decode; the decoded segments are, in order, the entries the   *)
+(* calls ask for (file, original line / column, name; a named node also closes its range just past its name); a named opening       *)
+(* segment sits where its chunk starts in the text, any segment sits inside the text and not after its chunk's start.               *)
+RECURSIVE ExpectedEntries(_, _, _)
+ExpectedEntries(calls, i, k) ==       \* k: index into out.starts of the next non-builtin write_for
+  IF i > Len(calls) THEN <<>>
+  ELSE LET c == calls[i] IN
+       IF c.op = "write_for" /\ ~c.node.builtin
+       THEN (IF c.node.name # ""
+             THEN <<[file |-> c.node.file, ol |-> c.node.line, oc |-> c.node.col, name |-> c.node.name, start |-> k, opening |-> TRUE],
+                    [file |-> c.node.file, ol |-> c.node.line, oc |-> c.node.col + Len(c.node.name), name |-> "", start |-> 0, opening |-> FALSE]>>
+             ELSE <<[file |-> c.node.file, ol |-> c.node.line, oc |-> c.node.col, name |-> "", start |-> k, opening |-> TRUE]>>)
+            \o ExpectedEntries(calls, i + 1, k + 1)
+       ELSE ExpectedEntries(calls, i + 1, k)
+RECURSIVE FlatSegs(_, _)
+FlatSegs(lines, g) == IF g > Len(lines) THEN <<>> ELSE [k \in DOMAIN lines[g] |-> [gl |-> g - 1] @@ lines[g][k]] \o FlatSegs(lines, g + 1)
+
+TWriter ==
+  /\ IsEvent("Writer")
+  /\ LET e == Rec[l]
+         want == ExpectedEntries(e.calls, 1, 1)
+     IN IF e.out.k = "panic" THEN Report(e, {SItem("panic", "the source writer panicked", [calls |-> e.calls, msg |-> e.out.msg])})
+        ELSE LET dec == DecodeMappings(e.out.mappings) IN
+             IF want = <<>> THEN Stat([l |-> l, writer |-> "no-entries"])
+             ELSE IF ~dec.ok
+                  THEN (IF e.out.starts[1][1] = 0
+                        (* precondition of the writer (MappingWriterAlgo!FirstEntryNotOnLine0): emitted files begin with an unmapped line *)
+                        THEN Stat([l |-> l, writer |-> "first-entry-on-line-0"])
+                        ELSE Report(e, {SItem("undecodable", "the mappings of a replayed call sequence do not decode", [calls |-> e.calls, why |-> dec.why])}))
+             ELSE LET got == FlatSegs(dec.lines, 1)
+                      bad == IF Len(got) # Len(want) THEN {0}
+                             ELSE {i \in DOMAIN want :
+                                     \/ got[i].n < 4 \/ got[i].src # want[i].file \/ got[i].line # want[i].ol \/ got[i].col # want[i].oc
+                                     \/ (want[i].name # "") # (got[i].n = 5)
+                                     \/ (got[i].n = 5 /\ (got[i].name < 0 \/ got[i].name >= Len(e.out.names) \/ e.out.names[got[i].name + 1] # want[i].name))
+                                     \/ got[i].gl + 1 \notin DOMAIN e.out.lineLens \/ got[i].genCol > e.out.lineLens[got[i].gl + 1]
+                                     \* a named opening sits exactly where its chunk's first character is (when the chunk has one)
+                                     \/ (want[i].opening /\ want[i].name # "" /\ e.out.starts[want[i].start][3] = 1
+                                         /\ <<got[i].gl, got[i].genCol>> # <<e.out.starts[want[i].start][1], e.out.starts[want[i].start][2]>>)
+                                     \* an unnamed opening is on the chunk's line and not after its start
+                                     \/ (want[i].opening /\ want[i].name = "" /\ e.out.starts[want[i].start][3] = 1
+                                         /\ ~(got[i].gl = e.out.starts[want[i].start][1] /\ got[i].genCol <= e.out.starts[want[i].start][2]))}
+                  IN /\ (bad = {} \/ Report(e, {SItem("writer-entries", "the decoded segments of a replayed call sequence are not the entries the calls ask for",
+                                                       [calls |-> e.calls, first |-> CHOOSE i \in bad : TRUE, decoded |-> got, expected |-> want, starts |-> e.out.starts])}))
+                     /\ Stat([l |-> l, writer |-> "judged", entries |-> Len(want)])
 Init == l = 1
-Next == TGen \/ TVlq
+Next == TGen \/ TVlq \/ TWriter
 Spec == Init /\ [][Next]_l
 Done == PrintT(<<"DONE", ToJson([consumed |-> TLCGet("stats").diameter - 1])>>)
 =============================================================================
